@@ -115,7 +115,8 @@ Prog == [lets |-> st.hdr.lets, regs |-> st.hdr.regs, macros |-> st.macros, impor
 \* always TRUE; prints every complete program as one JSON line (the harness collects them)
 \* (the native gate table is replaced by a flag: the harness re-attaches the table, whose agreement with
 \* JaqalGates!ExactGates is validated separately)
-Emit == Complete => PrintT(<<"PROG", ToJson([Prog EXCEPT !.natives = IF @ = <<>> THEN <<>> ELSE <<"exact">>])>>)
+NatTag(nat) == IF nat = <<>> THEN <<>> ELSE IF nat = ActiveGates THEN <<"active">> ELSE <<"exact">>
+Emit == Complete => PrintT(<<"PROG", ToJson([Prog EXCEPT !.natives = NatTag(@)])>>)
 
 \* ---- spec-level theorems checked on every enumerated program
 \* the meaning of a complete program is well defined (no BAD node) whenever the configuration is meant
